@@ -98,6 +98,8 @@ pub const HARNESSES: &[(&str, fn())] = &[
     ("c05_hosting_b", c05_hosting::c05_hosting_b),
     ("c05_hosting_deep_a", c05_hosting::c05_hosting_deep_a),
     ("c05_hosting_deep_b", c05_hosting::c05_hosting_deep_b),
+    ("c05_hosting_byref", c05_hosting::c05_hosting_byref),
+    ("c05_hosting_deep_byref", c05_hosting::c05_hosting_deep_byref),
     ("c08_evict_race_q1", c08_threads::c08_evict_race_q1),
     ("c08_evict_race_q2", c08_threads::c08_evict_race_q2),
     ("c08_evict_race_t1", c08_threads::c08_evict_race_t1),
